@@ -475,9 +475,11 @@ def place_on(skeleton, events_at):
 def pause_carried_out_after_play(trace):
     """D29: a listener of the transition that a deferred pause action performs withdrew that pause — play() answered True, or
     kill() armed a kill action in its place (the pause action future is cancelled either way) — and right after it the pause
-    hooks ran all the same.  Returns the index or None."""
+    hooks ran all the same.  The hooks belong to a deferred action iff no pause() call was made at that point of the trace (a direct
+    pause() is recorded with the position at which it was made, which is where its hooks start).  Returns the index or None."""
+    direct = {e[3] for e in trace if e[0] == 'ctl' and e[1][0] == 'pause'}
     for j in range(1, len(trace)):
-        if trace[j] == ['hook', 'on_pausing']:
+        if trace[j] == ['hook', 'on_pausing'] and j not in direct:
             e = trace[j - 1]
             if e[0] == 'ctl' and ((e[1] == ['play'] and e[2] == ['bool', True]) or (e[1][0] == 'kill' and e[2][0] == 'action')):
                 return j
